@@ -314,6 +314,14 @@ fn run_tool_once(datadir: &Path, dump: &Path, o: &RunOpts) -> Result<RunOut, Str
     let pin = o.pin;
     unsafe {
         cmd.pre_exec(move || {
+            // descriptors inherited from whatever started the check must not reach the tool: they would
+            // shift every descriptor-limit measurement (C17) by an environment-dependent amount
+            for fd in 3..1024 {
+                let fl = libc::fcntl(fd, libc::F_GETFD);
+                if fl >= 0 {
+                    libc::fcntl(fd, libc::F_SETFD, fl | libc::FD_CLOEXEC);
+                }
+            }
             if let Some(l) = fsize {
                 libc::signal(libc::SIGXFSZ, libc::SIG_IGN);
                 let r = libc::rlimit { rlim_cur: l, rlim_max: l };
